@@ -18,11 +18,13 @@ STRATEGY = hx.sel("VB_STRATEGY", "create_unique")
 DEPTH = hx.bound("VB_DEPTH", 2)
 K1 = hx.sel("VB_K1", "")          # partition: kind of the first step
 K2 = hx.sel("VB_K2", "")          # partition: kind of the second step
+INIT = hx.sel("VB_INIT", "auto")   # auto: the initial exon has no ID (key exon_1, counter in use) | explicit: every initial feature has an ID
+B1 = hx.bound("VB_B1", -1)
 A1 = hx.bound("VB_A1", -1)        # partition: first operand selector of the first step
 KINDS = ("update", "delete", "relate", "reopen", "failing_update")
 UP_IDS = (None, "n1", "exon_1")
-UP_PARS = (None, "m")
-DEL_IDS = ("m", "exon_1", "zz")
+UP_PARS = (None, "m", "zz")      # "zz" names no stored feature (dangling Parent)
+DEL_IDS = ("m", "exon_1" if hx.sel("VB_INIT", "auto") == "auto" else "e1", "zz")
 REL = (("g", "n1", 1), ("m", "n1", 1), ("g", "n1", 2), ("g", "g2", 1), ("g2", "m", 1), ("m", "g2", 2))
 _N = [0]
 
@@ -51,7 +53,8 @@ def _initial():
     return [Feature(seqid="c", source="s", featuretype="gene", start=1, end=90, strand="+", attributes={"ID": ["g"]}),
             Feature(seqid="c", source="s", featuretype="gene", start=100, end=190, strand="+", attributes={"ID": ["g2"]}),
             Feature(seqid="c", source="s", featuretype="mRNA", start=2, end=80, strand="+", attributes={"ID": ["m"], "Parent": ["g"]}),
-            Feature(seqid="c", source="s", featuretype="exon", start=3, end=9, strand="+", attributes={"Parent": ["m"]})]
+            Feature(seqid="c", source="s", featuretype="exon", start=3, end=9, strand="+",
+                    attributes={"ID": ["e1"], "Parent": ["m"]} if INIT == "explicit" else {"Parent": ["m"]})]
 
 
 class Model:
@@ -265,16 +268,20 @@ def _check(steps):
 
 
 def _ok(k1, a1, b1, k2, a2, b2):
-    if not (0 <= k1 <= 4 and 0 <= k2 <= 4 and 0 <= a1 <= 2 and 0 <= b1 <= 1 and 0 <= a2 <= 2 and 0 <= b2 <= 1):
+    if not (0 <= k1 <= 4 and 0 <= k2 <= 4 and 0 <= a1 <= 2 and 0 <= b1 <= 2 and 0 <= a2 <= 2 and 0 <= b2 <= 2):
         return False
     if K1 and KINDS[k1] != K1:
         return False
     if A1 >= 0 and a1 != A1:
         return False
+    if B1 >= 0 and b1 != B1:
+        return False
     if K2 and KINDS[k2] != K2:
         return False
     for k, a, b in ((k1, a1, b1), (k2, a2, b2)):
         if KINDS[k] in ("delete",) and b != 0:
+            return False
+        if KINDS[k] == "relate" and b > 1:
             return False
         if KINDS[k] == "reopen" and (a != 0 or b != 0):
             return False
